@@ -50,10 +50,10 @@ theorem execUnalias_set (s : State) (args : List String) (x : List Byte) :
     execUnalias { s with inp := x } args = { execUnalias s args with inp := x } := by
   unfold execUnalias; split <;> rfl
 
-theorem execUtil_set (s : State) (bodies : List (List Char)) (u : Util) (name : String)
-    (args : List String) (here : Option Nat) (x : List Byte) (h1 : u ≠ .read) (h2 : u ≠ .cat) :
-    execUtil { s with inp := x } bodies u name args here
-      = { execUtil s bodies u name args here with inp := x } := by
+theorem execUtil_set (s : State) (u : Util) (name : String)
+    (args : List String) (here : Option (List Char)) (x : List Byte) (h1 : u ≠ .read) (h2 : u ≠ .cat) :
+    execUtil { s with inp := x } u name args here
+      = { execUtil s u name args here with inp := x } := by
   cases u with
   | probe => rfl
   | aliasName => rfl
@@ -66,10 +66,10 @@ theorem execUtil_set (s : State) (bodies : List (List Char)) (u : Util) (name : 
   | cat => exact absurd rfl h2
   | unknown => rfl
 
-theorem step_set (bodies : List (List Char)) (k : List K) (s : State) (x : List Byte)
+theorem step_set (k : List K) (s : State) (x : List Byte)
     (h : ∀ ws here k0, k ≠ .cmd (.simple ws here) :: k0) :
-    step bodies k { s with inp := x }
-      = (step bodies k s).map (fun r => (r.1, { r.2 with inp := x })) := by
+    step k { s with inp := x }
+      = (step k s).map (fun r => (r.1, { r.2 with inp := x })) := by
   cases k with
   | nil => rfl
   | cons a k0 =>
@@ -94,25 +94,29 @@ theorem step_set (bodies : List (List Char)) (k : List K) (s : State) (x : List 
     | loopBack u c b => rfl
     | restore sv => rfl
     | negK => rfl
+    | src t e ex =>
+      have hp : parserOf { s with inp := x } = parserOf s := rfl
+      simp only [step, Option.map, stepSrc, hp]
+      split <;> rfl
 
 /-! ### the operations that read the descriptor -/
 
-theorem execReadC_flat (c : CState) (raw : Bool) (names : List String) :
-    (execReadC c raw names).flat = execRead c.flat raw names := by
-  have e := readLineCGo_eq raw false [] c.src []
+theorem execReadC_flat (c : CState) (d : Nat) (raw : Bool) (names : List String) :
+    (execReadC c d raw names).flat = execRead c.flat d raw names := by
+  have e := readLineCGo_eq d raw false [] c.src []
   cases hsh : c.st.shared with
   | false => simp [execReadC, execRead, CState.flat, State.stdin, State.setStdin, hsh]
   | true =>
-    have e1 : (readLine raw c.src.flatten []).1 = (readLineCGo raw false [] c.src []).1 :=
+    have e1 : (readLine d raw c.src.flatten []).1 = (readLineCGo d raw false [] c.src []).1 :=
       (congrArg (·.1) e).symm
-    have e2 : (readLine raw c.src.flatten []).2.1 = (readLineCGo raw false [] c.src []).2.1 :=
+    have e2 : (readLine d raw c.src.flatten []).2.1 = (readLineCGo d raw false [] c.src []).2.1 :=
       (congrArg (·.2.1) e).symm
-    have e3 : (readLine raw c.src.flatten []).2.2 = (readLineCGo raw false [] c.src []).2.2.flatten :=
+    have e3 : (readLine d raw c.src.flatten []).2.2 = (readLineCGo d raw false [] c.src []).2.2.flatten :=
       (congrArg (·.2.2) e).symm
     simp [execReadC, execRead, CState.flat, State.stdin, State.setStdin, hsh, e1, e2, e3]
 
-theorem execCatC_flat (c : CState) (bodies : List (List Char)) (here : Option Nat) :
-    (execCatC c bodies here).flat = execCat c.flat bodies here := by
+theorem execCatC_flat (c : CState) (here : Option (List Char)) :
+    (execCatC c here).flat = execCat c.flat here := by
   cases here with
   | some k => simp [execCatC, execCat, CState.flat]
   | none =>
@@ -120,56 +124,59 @@ theorem execCatC_flat (c : CState) (bodies : List (List Char)) (here : Option Na
     | false => simp [execCatC, execCat, CState.flat, State.stdin, State.setStdin, hsh]
     | true => simp [execCatC, execCat, CState.flat, State.stdin, State.setStdin, hsh, drainC_eq]
 
-theorem execSimpleC_flat (c : CState) (bodies : List (List Char)) (fields : List String)
-    (here : Option Nat) :
-    (execSimpleC c bodies fields here).flat = execSimple c.flat bodies fields here := by
+theorem execSimpleC_flat (c : CState) (fields : List String)
+    (here : Option (List Char)) :
+    (execSimpleC c fields here).flat = execSimple c.flat fields here := by
   cases fields with
   | nil => rfl
   | cons name args =>
     simp only [execSimpleC, execSimple]
     cases hu : classify name with
     | read =>
-      simp only [execUtil]
-      split <;> exact execReadC_flat _ _ _
-    | cat => exact execCatC_flat _ _ _
-    | probe => exact (execUtil_set c.st bodies .probe name args here _ (by simp) (by simp)).symm
-    | aliasName => exact (execUtil_set c.st bodies .aliasName name args here _ (by simp) (by simp)).symm
-    | st => exact (execUtil_set c.st bodies .st name args here _ (by simp) (by simp)).symm
-    | colon => exact (execUtil_set c.st bodies .colon name args here _ (by simp) (by simp)).symm
-    | alias => exact (execUtil_set c.st bodies .alias name args here _ (by simp) (by simp)).symm
-    | unalias => exact (execUtil_set c.st bodies .unalias name args here _ (by simp) (by simp)).symm
-    | set => exact (execUtil_set c.st bodies .set name args here _ (by simp) (by simp)).symm
-    | unknown => exact (execUtil_set c.st bodies .unknown name args here _ (by simp) (by simp)).symm
+      exact execReadC_flat _ _ _ _
+    | cat => exact execCatC_flat _ _
+    | probe => exact (execUtil_set c.st .probe name args here _ (by simp) (by simp)).symm
+    | aliasName => exact (execUtil_set c.st .aliasName name args here _ (by simp) (by simp)).symm
+    | st => exact (execUtil_set c.st .st name args here _ (by simp) (by simp)).symm
+    | colon => exact (execUtil_set c.st .colon name args here _ (by simp) (by simp)).symm
+    | alias => exact (execUtil_set c.st .alias name args here _ (by simp) (by simp)).symm
+    | unalias => exact (execUtil_set c.st .unalias name args here _ (by simp) (by simp)).symm
+    | set => exact (execUtil_set c.st .set name args here _ (by simp) (by simp)).symm
+    | unknown => exact (execUtil_set c.st .unknown name args here _ (by simp) (by simp)).symm
 
-theorem stepC_flat (bodies : List (List Char)) (k : List K) (c : CState) :
-    (stepC bodies k c).map (fun r => (r.1, r.2.flat)) = step bodies k c.flat := by
+theorem stepC_flat (k : List K) (c : CState) :
+    (stepC k c).map (fun r => (r.1, r.2.flat)) = step k c.flat := by
   by_cases hs : ∃ ws here k0, k = .cmd (.simple ws here) :: k0
   · obtain ⟨ws, here, k0, hk⟩ := hs
     subst hk
-    simp only [stepC, step, Option.map]
-    rw [execSimpleC_flat]
-    rfl
+    simp only [stepC, step, stepSimple]
+    show _ = some (match nested (expandWords c.st.vars c.st.status ws) with
+      | some (text, echoes) => (K.src text echoes false :: k0, c.flat)
+      | none => (k0, execSimple c.flat (expandWords c.st.vars c.st.status ws) here))
+    cases nested (expandWords c.st.vars c.st.status ws) with
+    | some r => rfl
+    | none => simp only [Option.map]; rw [execSimpleC_flat]
   · have hs' : ∀ ws here k0, k ≠ .cmd (.simple ws here) :: k0 := by
       intro ws here k0 e; exact hs ⟨ws, here, k0, e⟩
-    have hstep : stepC bodies k c = (step bodies k c.st).map fun r => (r.1, { c with st := r.2 }) := by
+    have hstep : stepC k c = (step k c.st).map fun r => (r.1, { c with st := r.2 }) := by
       unfold stepC
       split
       · rename_i ws here k0; exact absurd rfl (hs' ws here k0)
       · rfl
     rw [hstep]
-    refine Eq.trans ?_ (step_set bodies k c.st c.src.flatten hs').symm
-    cases step bodies k c.st with
+    refine Eq.trans ?_ (step_set k c.st c.src.flatten hs').symm
+    cases step k c.st with
     | none => rfl
     | some r => rfl
 
-theorem runKC_flat (bodies : List (List Char)) (n : Nat) (k : List K) (c : CState) :
-    ((runKC bodies n k c).1.flat, (runKC bodies n k c).2) = runK bodies n k c.flat := by
+theorem runKC_flat (n : Nat) (k : List K) (c : CState) :
+    ((runKC n k c).1.flat, (runKC n k c).2) = runK n k c.flat := by
   induction n generalizing k c with
   | zero => rfl
   | succ n ih =>
     simp only [runKC, runK]
     rw [← stepC_flat]
-    cases stepC bodies k c with
+    cases stepC k c with
     | none => rfl
     | some r => simpa using ih r.1 r.2
 
@@ -208,7 +215,11 @@ theorem loopC_flat (n : Nat) (c : CState) (log : List (List Byte)) (lg : List It
     simp only [loopC, loop]
     rw [pullOfC_res]
     cases hres : (pullOf c.flat).res with
-    | none => exact ⟨afterPullC_flat c, rfl, hlog⟩
+    | none =>
+      refine ⟨?_, rfl, hlog⟩
+      show ({ (afterPullC c).flat with hitEof := c.st.hitEof || !(pullOfC c).text.isEmpty } : State) = _
+      rw [afterPullC_flat, pullOfC_text]
+      rfl
     | error =>
       refine ⟨?_, rfl, hlog⟩
       show ({ (afterPullC c).flat with status := 2 } : State) = _
@@ -217,17 +228,25 @@ theorem loopC_flat (n : Nat) (c : CState) (log : List (List Byte)) (lg : List It
       refine ⟨?_, rfl, hlog⟩
       show ({ (afterPullC c).flat with status := 2 } : State) = _
       rw [afterPullC_flat]
-    | ok cs bodies =>
+    | ok cs =>
       simp only []
-      have hr := runKC_flat bodies execFuel (cmds cs) (atExecC c)
+      have hr := runKC_flat execFuel (cmds cs) (atExecC c)
       rw [atExecC_flat] at hr
       simp only [Prod.ext_iff] at hr
       rw [← hr.2]
-      by_cases hfin : (runKC bodies execFuel (cmds cs) (atExecC c)).2 = true
+      have hab : (runKC execFuel (cmds cs) (atExecC c)).1.st.aborted
+          = (runK execFuel (cmds cs) (atExec c.flat)).1.aborted := by
+        rw [← hr.1]; rfl
+      by_cases hfin : (runKC execFuel (cmds cs) (atExecC c)).2 = true
       · simp only [hfin, if_true]
-        have := ih (runKC bodies execFuel (cmds cs) (atExecC c)).1 _ _ hlog
-        rw [hr.1] at this
-        exact this
+        rw [hab]
+        by_cases ha : (runK execFuel (cmds cs) (atExec c.flat)).1.aborted = true
+        · simp only [ha, if_true]
+          exact ⟨hr.1, trivial, hlog⟩
+        · simp only [ha]
+          have := ih (runKC execFuel (cmds cs) (atExecC c)).1 _ _ hlog
+          rw [hr.1] at this
+          exact this
       · simp only [hfin]
         exact ⟨hr.1, rfl, hlog⟩
 
